@@ -24,6 +24,7 @@ META = {
 }
 META["explanation"] += ' Also COPY (a copied window tracker owns its buffer and write position).'
 META["explanation"] += ' Round 5: NumPy calls that change the kept array in place although they read like queries (overwrite_input=True, out=self.<array>, .sort / .partition); DEP-C18 E4 for the tracker module. HAZARD: constructs that do not mean what they look like, met in the analysed code (defaults evaluated once, class-level containers changed through self, dict.fromkeys with a shared mutable value, late-binding lambdas, truth value of objects that define __len__) are reported by every check.'
+META["explanation"] += ' Round 6: every method / property besides the constructor, update and their helpers only reads the window (RING read-only; in-place operators on a name that may denote the buffer count).'
 MIN_INSTANCES = {"NPAPI": 1, "RING": 2, "NAN": 4, "COPY": 1}
 CLS = "SlidingWindowTracker"
 AGG = {"mean": ("nanmean",), "var": ("nanvar",), "std": ("nanstd",)}
